@@ -30,6 +30,20 @@ pub fn vx_any_matches(fs: &Vec<Filter>, msg: &DltMessage) -> (r: bool)
     }
     false
 }
+// verified model of Iterator::all (only used if the code under check uses it)
+pub fn vx_all_matches(fs: &Vec<Filter>, msg: &DltMessage) -> (r: bool)
+    ensures r == (forall|i: int| 0 <= i < fs@.len() ==> #[trigger] spec_matches(&fs@[i], msg)),
+{
+    let mut i: usize = 0;
+    while i < fs.len()
+        invariant i <= fs@.len(), forall|j: int| 0 <= j < i ==> spec_matches(&fs@[j], msg),
+        decreases fs@.len() - i,
+    {
+        if !fs[i].matches(msg) { return false; }
+        i += 1;
+    }
+    true
+}
 // the property's formula
 pub open spec fn spec_match_filters(msg: &DltMessage, filters: &FilterKindContainer<Vec<Filter>>) -> bool {
     let pos = filters.spec_index(FilterKind::Positive)@;
@@ -41,9 +55,12 @@ pub open spec fn spec_match_filters(msg: &DltMessage, filters: &FilterKindContai
 //@   sub R8 `&filters[FilterKind::Positive]` => `filters.index(FilterKind::Positive)`
 //@   sub R8 `&filters[FilterKind::Negative]` => `filters.index(FilterKind::Negative)`
 //@   sub R8 `&filters[FilterKind::Event]` => `filters.index(FilterKind::Event)`
-//@   sub R11 `pos_filters.iter().any(|filter| filter.matches(msg))` => `vx_any_matches(pos_filters, msg)`
-//@   sub R11 `neg_filters.iter().any(|filter| filter.matches(msg))` => `vx_any_matches(neg_filters, msg)`
-//@   sub R11 `ev_filters.iter().any(|filter| filter.matches(msg))` => `vx_any_matches(ev_filters, msg)`
+//@   sub R11 `pos_filters.iter().any(|filter| filter.matches(msg))` => `vx_any_matches(pos_filters, msg)` ?
+//@   sub R11 `neg_filters.iter().any(|filter| filter.matches(msg))` => `vx_any_matches(neg_filters, msg)` ?
+//@   sub R11 `ev_filters.iter().any(|filter| filter.matches(msg))` => `vx_any_matches(ev_filters, msg)` ?
+//@   sub R11 `pos_filters.iter().all(|filter| filter.matches(msg))` => `vx_all_matches(pos_filters, msg)` ?
+//@   sub R11 `neg_filters.iter().all(|filter| filter.matches(msg))` => `vx_all_matches(neg_filters, msg)` ?
+//@   sub R11 `ev_filters.iter().all(|filter| filter.matches(msg))` => `vx_all_matches(ev_filters, msg)` ?
 //@   spec
 //@|    ensures r == spec_match_filters(msg, filters), // O:match_filters.eq
 //@ end
